@@ -38,12 +38,15 @@ class World:
         self._opaque = {}
         self.extra_axioms = []
         self.inline = set()          # (file, qualname) helper functions inlined instead of contracted
+        self.bound = None            # N: bounded-refutation mode (finite expansion of index quantifiers)
         self._seed_classes()
         self.builtins = self._builtins()
         self.ext_table = self._externals()
         self.spec_funcs = {}
         from . import models
         models.install(self)
+        for inst in C.INSTALLERS:
+            inst(self)
         from . import specfn
         specfn.install(self)
 
@@ -606,10 +609,10 @@ class World:
                     return VBool(is_any)
             return VBool(not is_any)
         if isinstance(it, VSeq):
-            i = ex.fresh("i_any", I)
-            el = self.ext.from_box(ex, z3.Select(it.arr, i), it.elem)
-            body = z3.And(i >= 0, i < it.n, ex.truthy(el) if is_any else z3.Not(ex.truthy(el)))
-            e = z3.Exists([i], body)
+            def body(i):
+                el = self.ext.from_box(ex, z3.Select(it.arr, i), it.elem)
+                return ex.truthy(el) if is_any else z3.Not(ex.truthy(el))
+            e = ex.exists(0, it.n, body, "i_any")
             return VBool(e if is_any else z3.Not(e))
         raise Unsupported("any/all over %r" % (it,))
 
@@ -658,6 +661,15 @@ class World:
         raise Unsupported("isinstance(%r, %r)" % (v, c))
 
     def issubclass_(self, ex, a, c):
+        if isinstance(c, VSeq):
+            if not isinstance(a, VCls):
+                if isinstance(a, VObj):
+                    if not ex.spec_mode and not ex.branch(self.is_class(a.t)):
+                        ex.throw("TypeError", None, origin="issubclass-nonclass")
+                    a = VCls(a.t)
+                else:
+                    ex.throw("TypeError", None, origin="issubclass-nonclass")
+            return ex.exists(0, c.n, lambda i: sym.sub(a.t, z3.Select(c.arr, i)), "i_sub")
         if isinstance(c, VTup):
             return z3.Or(*[self.issubclass_(ex, a, k) for k in c.items]) if c.items else z3.BoolVal(False)
         if not isinstance(a, VCls):
@@ -1034,7 +1046,39 @@ class World:
         raise Unsupported("%s.%s" % (s.sk, name))
 
     def list_sort(self, ex, s, args, kwargs, node):
-        raise Unsupported("list.sort (needs a registered sort model)")
+        """list.sort(key=f): the result is a permutation of the list, ordered by key, stable."""
+        key = kwargs.get("key")
+        if key is None or args:
+            raise Unsupported("list.sort without key=")
+        self.ext.use(ex, "list.sort(key): permutation, sorted by key, stable (keys are ints; key function total)")
+        self.ext.mutated(ex, s, "sort")
+        n = s.n
+        old = s.arr
+        pi = z3.Function("perm!%d" % next(ex.counter), I, I)
+        inv = z3.Function("perm_inv!%d" % next(ex.counter), I, I)
+        new = ex.fresh("sorted", sym.ARR)
+        inr = lambda x: z3.And(x >= 0, x < n)
+
+        def keyterm(idx):
+            el = self.ext.from_box(ex, z3.Select(new, idx), s.elem)
+            saved = ex.spec_mode
+            ex.spec_mode = True
+            try:
+                kv = ex.call(key, [el], {})
+            finally:
+                ex.spec_mode = saved
+            kt = as_int_term(kv)
+            if kt is None:
+                raise Unsupported("sort key of kind %r" % (kv,))
+            return kt
+        ex.assume(ex.forall(0, n, lambda i: z3.And(inr(pi(i)), inv(pi(i)) == i,
+                                                   z3.Select(new, i) == z3.Select(old, pi(i)))))
+        ex.assume(ex.forall(0, n, lambda j: z3.And(inr(inv(j)), pi(inv(j)) == j)))
+        ex.assume(ex.forall(0, n, lambda j: ex.forall(0, j, lambda i: z3.And(
+            keyterm(i) <= keyterm(j), z3.Implies(keyterm(i) == keyterm(j), pi(i) < pi(j))))))
+        s.arr = new
+        s.last_perm = (pi, inv)
+        return VNone()
 
     def dict_method(self, ex, d, name, node):
         w = self
@@ -1096,15 +1140,14 @@ class World:
         kb = ex.box(key)
         self.ext.use(ex, "dict[k] = v: keys hashable (TypeError otherwise); equal key overwritten in place, else appended")
         hashable = z3.Function("hashable", V, B)
-        if not isinstance(key, (VStr, VInt, VBool, VNone, VFloat)):
+        if not isinstance(key, (VStr, VInt, VBool, VNone, VFloat, VCls)):
             if not ex.branch(hashable(kb)):
                 ex.throw("TypeError", node, origin="unhashable-key")
         self.ext.mutated(ex, m, "setitem")
         j = ex.fresh("j_set", I)
-        same = lambda idx: z3.Or(z3.Select(m.keys, idx) == kb, sym.py_eq(z3.Select(m.keys, idx), kb))
-        i = z3.Int("i!ms")
-        exists = z3.And(j >= 0, j < m.n, same(j), z3.ForAll([i], z3.Implies(z3.And(i >= 0, i < j), z3.Not(same(i)))))
-        none = z3.ForAll([i], z3.Implies(z3.And(i >= 0, i < m.n), z3.Not(same(i))))
+        same = lambda idx: self.key_same(ex, z3.Select(m.keys, idx), key, kb)
+        exists = z3.And(j >= 0, j < m.n, same(j), ex.forall(0, j, lambda i: z3.Not(same(i))))
+        none = ex.forall(0, m.n, lambda i: z3.Not(same(i)))
         k = ex.choose([exists, none])
         if k == 0:
             m.vals = z3.Store(m.vals, j, ex.box(v))
@@ -1113,13 +1156,19 @@ class World:
             m.vals = z3.Store(m.vals, m.n, ex.box(v))
             m.n = z3.simplify(m.n + 1)
 
+    def key_same(self, ex, stored, key, kb):
+        """dict key comparison: identity or ==; a class used as key compares by identity"""
+        if isinstance(key, VCls):
+            self.ext.use(ex, "dict keyed by classes: class == class is identity")
+            return stored == kb
+        return z3.Or(stored == kb, sym.py_eq(stored, kb))
+
     def map_getitem(self, ex, m, key, node):
         kb = ex.box(key)
         j = ex.fresh("j_get", I)
-        same = lambda idx: z3.Or(z3.Select(m.keys, idx) == kb, sym.py_eq(z3.Select(m.keys, idx), kb))
-        i = z3.Int("i!mg")
+        same = lambda idx: self.key_same(ex, z3.Select(m.keys, idx), key, kb)
         exists = z3.And(j >= 0, j < m.n, same(j))
-        none = z3.ForAll([i], z3.Implies(z3.And(i >= 0, i < m.n), z3.Not(same(i))))
+        none = ex.forall(0, m.n, lambda i: z3.Not(same(i)))
         if ex.spec_mode:
             raise Unsupported("map subscript in spec")
         k = ex.choose([exists, none])
@@ -1142,8 +1191,26 @@ class World:
     def class_unop(self, ex, op, v, node):
         raise Unsupported("unary operator on class")
 
+    def call_pure(self, ex, fn, args, kwargs, node):
+        """An unknown callable modelled as a deterministic partial function of its (single) argument:
+        result call1(f, x); raises iff call_raises(f, x), with class call_exc(f, x) <= Exception."""
+        if len(args) != 1 or kwargs:
+            raise Unsupported("pure call model with %d arguments" % len(args))
+        self.ext.use(ex, "unknown callable: deterministic partial function of its argument (result, or an Exception subclass); no side effects")
+        f, x = fn.t, ex.box(args[0])
+        call1 = z3.Function("call1", V, V, V)
+        raises = z3.Function("call_raises", V, V, B)
+        cexc = z3.Function("call_exc", V, V, V)
+        if ex.branch(raises(f, x)):
+            ec = cexc(f, x)
+            ex.assume(sym.sub(ec, self.classes.of_py(Exception).t))
+            raise PyExc(VExc(VCls(ec, name="call_exc"), {}, origin="call-pure"), node)
+        return VObj(call1(f, x))
+
     def call_unknown(self, ex, fn, args, kwargs, node):
         """Calling an object of unknown class: result arbitrary object, may raise any Exception."""
+        if getattr(ex, "call_model", None) == "pure":
+            return self.call_pure(ex, fn, args, kwargs, node)
         self.ext.use(ex, "call of an unknown callable: arbitrary result or any Exception subclass; no side effects on tracked state")
         k = ex.choose([z3.BoolVal(True), z3.BoolVal(True)])
         if k == 0:
@@ -1237,8 +1304,7 @@ class World:
                 items = ex.fresh("items", sym.ARR)
                 # element-wise definition via a quantifier-free select view is not available for
                 # generic views; materialise through an axiom
-                ex.assume(z3.ForAll([k], z3.Implies(z3.And(k >= 0, k < view.n),
-                                                    z3.Select(items, k) == ex.box(view.get(ex, k)))))
+                ex.assume(ex.forall(0, view.n, lambda k: z3.Select(items, k) == ex.box(view.get(ex, k))))
                 v = VSeq("list", items, view.n)
         if isinstance(v, VSeq):
             ordered_src = v.sk in ("list", "tuple", "deque", "iter", "bytes", "dictview")
@@ -1258,16 +1324,12 @@ class World:
             r.elem = v.elem
             ex.created.add(id(r))
             ex.keep.append(r)
-            i, j = z3.Ints("i!st j!st")
             same = lambda a, b: z3.Or(a == b, sym.py_eq(a, b))
             ex.assume(z3.And(n >= 0, n <= v.n))
-            ex.assume(z3.ForAll([i], z3.Implies(z3.And(i >= 0, i < v.n),
-                                                z3.Exists([j], z3.And(j >= 0, j < n, same(z3.Select(arr, j), z3.Select(v.arr, i)))))))
-            ex.assume(z3.ForAll([j], z3.Implies(z3.And(j >= 0, j < n),
-                                                z3.Exists([i], z3.And(i >= 0, i < v.n, z3.Select(arr, j) == z3.Select(v.arr, i))))))
+            ex.assume(ex.forall(0, v.n, lambda i: ex.exists(0, n, lambda j: same(z3.Select(arr, j), z3.Select(v.arr, i)))))
+            ex.assume(ex.forall(0, n, lambda j: ex.exists(0, v.n, lambda i: z3.Select(arr, j) == z3.Select(v.arr, i))))
             if sk in ("set", "frozenset"):
-                ex.assume(z3.ForAll([i, j], z3.Implies(z3.And(i >= 0, i < j, j < n),
-                                                       z3.Not(same(z3.Select(arr, i), z3.Select(arr, j))))))
+                ex.assume(ex.forall(0, n, lambda j: ex.forall(0, j, lambda i: z3.Not(same(z3.Select(arr, i), z3.Select(arr, j))))))
             elif v.sk in ("set", "frozenset"):
                 ex.assume(n == v.n)
             return r
